@@ -406,7 +406,7 @@ pub fn adss_sizes(a: &Args) -> Report {
   } else {
     vec![0, 1, 16, 24, 166, 167, 333, 100_000]
   };
-  let thrs: Vec<u32> = if thorough { vec![0, 1, 2, 3, 5, 16, 64, 128] } else { vec![0, 1, 2, 5, 32] };
+  let thrs: Vec<u32> = if thorough { vec![0, 1, 2, 3, 5, 16, 64, 65, 128, 129, 256, 257] } else { vec![0, 1, 2, 5, 32, 65, 129] };
   let mut cases: Vec<(usize, usize, u32)> = Vec::new();
   for (i, lm) in lens.iter().enumerate() {
     for (j, lr) in lens.iter().enumerate() {
@@ -420,6 +420,13 @@ pub fn adss_sizes(a: &Args) -> Report {
   for t in &thrs {
     cases.push((32, 32, *t));
     cases.push((0, 0, *t));
+  }
+  // every threshold up to 40 in turn (a dealing path may depend on the threshold), and the
+  // first values after each power of two
+  for t in (0..=40u32).chain([63, 64, 66, 100, 127, 130, 255, 258].into_iter()) {
+    if thorough || t <= 40 || t == 66 || t == 100 {
+      cases.push((32, 32, t));
+    }
   }
   for (ci, (lm, lr, t)) in cases.iter().enumerate() {
     if rep.too_many() {
